@@ -29,7 +29,7 @@ def is_sched_obligation(name):
 
 
 def run(ctx, module, weights, tags, n_quick=250, len_quick=60, n_thorough=4000, len_thorough=200, extra_histories=None,
-        release_too=False, lean_extra=(), shape=True, lean=True, cov_key=None, release_quick_filter=None, zst=True):
+        release_too=False, lean_extra=(), shape=True, lean=True, cov_key=None, release_quick_filter=None, zst=True, search_only=False):
     """lean=False / cov_key=...: used as a *secondary* pass by checks whose main body is elsewhere
     (C05: dealloc layouts along histories)"""
     if lean:
@@ -117,7 +117,10 @@ def run(ctx, module, weights, tags, n_quick=250, len_quick=60, n_thorough=4000, 
             configs.append("debug, zero-sized payload type (%d histories with sized constructors only; projected comparison)" % zn)
             ctx.oblige("corr:hist-model-vs-impl-zst", not zdis and not zcr, "%d projected disagreements, %d crashes over %d histories" % (len(zdis), len(zcr), zn))
     agreed = all(not r.disagreements and not r.crashes for _, _, r in results)
-    ctx.oblige("corr:hist-model-vs-impl", agreed,
+    if search_only:
+        # the caller uses the histories as a failing-input search for its own monitors only
+        agreed = all(not r.crashes for _, _, r in results)
+    ctx.oblige("corr:hist-model-vs-impl" if not search_only else "search:hist-no-crash", agreed,
                "; ".join("%s: %d disagreements, %d crashes" % (nm, len(r.disagreements), len(r.crashes)) for nm, _, r in results))
     mine = []
     other = []
